@@ -202,6 +202,7 @@ type Exec struct {
 	pathNaming  map[string]bool
 	byFn        map[*ssa.Function][]*Contract
 	usedModular map[string]bool
+	usedContracts map[string]bool // labels of the contracts applied at call sites in this run
 	pathsOf     map[string]int
 }
 
